@@ -16,6 +16,7 @@ EXPLANATION = (
     "with max(slowest_time.picos, 1000). R04.4 defaults: min_time() -> zero, max_time() -> FineDuration::MAX."
     " R04.5 the three time options are parsed into their own fields (expansion rules restricted to max_time/min_time/skip_ext_time)."
     " R04.6 (= R03.4) the remaining-sample counter counts recorded samples only: None while tuning, started from sample_count when collection starts.")
+EXPLANATION += (' R04.7 (= R15.12) --skip-ext-time given without a value is read by occurrence and stored as Some(true).')
 NOT_DECIDED = ["agreement of the executed round count with a given clock history (needs a scripted clock - runtime family)"]
 
 # canonical atoms of the documented condition: continue  <=>  A and (B or C)
